@@ -222,6 +222,8 @@ class BaseFileLock(abc.ABC):
         if not self.is_locked:
             return
 
+        # A forced release drops every level of a reentrant lock
+        levels = self._lock_counter if force else 1
         self._decrement_lock_counter()
 
         if self._lock_counter == 0 or force:
@@ -238,7 +240,8 @@ class BaseFileLock(abc.ABC):
                 _logger.info('Lock %s released on %s', lid, fn)
 
         try:
-            self._thread_lock.release()
+            for _ in range(max(levels, 1)):
+                self._thread_lock.release()
         except RuntimeError:  # not reentrant and already unlocked
             pass
 
